@@ -36,6 +36,31 @@ def main():
         check.configs = cfgs
         cx = Cx(check, progs)
         mod.check(cx)
+        # thorough tier: every rule of the property is evaluated again in each further build configuration (TLS back ends,
+        # dns_lookup) as if it were the default one; rules are recorded as <id>@<cfg>, violations are keyed as in the default
+        # configuration (a site is reported once)
+        if tier == 'thorough':
+            import rules.common as rc
+            for c in cfgs:
+                if c == 'default':
+                    continue
+                rc._DEP_CACHE.clear()
+                sub = report.Check(a.prop, tier)
+                try:
+                    mod.check(Cx(sub, {'default': progs[c]}))
+                except report.AnchorLost as e:
+                    check.error('[%s] anchor lost: %s' % (c, e))
+                for r in sub.rules:
+                    if '@' in r.rid:
+                        continue        # a rule that iterates the configurations itself
+                    r.rid = '%s@%s' % (r.rid, c)
+                    r.check = check
+                    for v in r.violations:
+                        v.rule = r.rid
+                        v.detail = dict(v.detail or {}, config=c)
+                    check.rules.append(r)
+                for e in sub.errors:
+                    check.error('[%s] %s' % (c, e))
     except facts.FactsError as e:
         print('ERROR property=%s cannot extract facts: %s' % (a.prop, e))
         sys.exit(2)
